@@ -1,3 +1,121 @@
-(** placeholder while the proofs are being written *)
+(** C14 - property theorems only. Each is closed by [exact] of a lemma proved in
+    proofs/TopicProofs*.v; nothing else lives here.
+
+    [run ideal ops]  state of the (repaired) broker model after history [ops]
+    [live ops]       declarative spec: finite map (client, filter) -> qos by naive replay
+    [matches]        MQTT 3.1.1 matching of filter levels against topic-name levels
+    [find n T]       findSubscribers: [None] = error, [Some r] = every (client, qos) written
+                     into the answer map (Go keeps one of them per client) *)
 From EG.lib Require Import Base.
-From EG.model Require Import Topic.
+From EG.model Require Import Topic TopicCheck.
+From EG.proofs Require Import TopicProofsSplit TopicProofsTrie TopicProofsHist.
+Open Scope string_scope.
+Open Scope list_scope.
+
+(** for every history and every topic name (no wildcard character) findSubscribers
+    succeeds; the clients returned are exactly those holding a live subscription whose
+    filter matches; every QoS listed for a client is that of one of ITS OWN matching
+    live subscriptions *)
+Theorem C14_find_correct : forall (ops : list op) (T : string),
+  has_wild T = false ->
+  exists r, find (trie (run ideal ops)) T = Some r /\
+    (forall c, (exists q, In (c, q) r) <->
+               (exists f q, In ((c, f), q) (live ops) /\ matches (split_slash f) (split_slash T))) /\
+    (forall c q, In (c, q) r ->
+               exists f, In ((c, f), q) (live ops) /\ matches (split_slash f) (split_slash T)).
+Proof. exact find_correct. Qed.
+Print Assumptions C14_find_correct.
+
+(** no residue: routing of every topic string is determined by the live map alone *)
+Theorem C14_no_residue : forall ops1 ops2 : list op,
+  (forall k v, In (k, v) (live ops1) <-> In (k, v) (live ops2)) ->
+  forall T, same_result (find (trie (run ideal ops1)) T) (find (trie (run ideal ops2)) T).
+Proof. exact no_residue. Qed.
+Print Assumptions C14_no_residue.
+
+(** ... in particular, once the last subscriber of filter [f] is gone, routing equals
+    that of the same history with every mention of [f] erased *)
+Theorem C14_no_residue_after_removal : forall (ops : list op) (f : string),
+  wf_filter f = true ->
+  (forall c q, ~ In ((c, f), q) (live ops)) ->
+  forall T, same_result (find (trie (run ideal ops)) T) (find (trie (run ideal (strip f ops))) T).
+Proof. exact no_residue_after_removal. Qed.
+Print Assumptions C14_no_residue_after_removal.
+
+Theorem C14_resubscribe_overwrites_qos : forall (ops : list op) (c : cid) (f : string) (q : qos),
+  wf_filter f = true ->
+  let ops' := ops ++ [Sub c [(f, q)]] in
+  (forall q', In ((c, f), q') (live ops') <-> q' = q) /\
+  (forall q', In (c, q') (at_path (split_slash f) (trie (run ideal ops'))) <-> q' = q).
+Proof. exact resubscribe_overwrites_qos. Qed.
+Print Assumptions C14_resubscribe_overwrites_qos.
+
+Theorem C14_unsub_unknown_is_noop : forall (ops : list op) (c : cid) (f : string),
+  (forall q, ~ In ((c, f), q) (live ops)) ->
+  let ops' := ops ++ [Unsub c [f]] in
+  (forall k v, In (k, v) (live ops') <-> In (k, v) (live ops)) /\
+  (forall fl, at_path fl (trie (run ideal ops')) = at_path fl (trie (run ideal ops))) /\
+  (forall T, same_result (find (trie (run ideal ops')) T) (find (trie (run ideal ops)) T)).
+Proof. exact unsub_unknown_is_noop. Qed.
+Print Assumptions C14_unsub_unknown_is_noop.
+
+(** malformed filters are rejected: by splitTopic, and a SUBSCRIBE carrying one changes nothing *)
+Theorem C14_malformed_rejected :
+  (forall f, wf_filter f = false -> split_topic f = None) /\
+  (forall ops c fqs, forallb (fun fq => wf_filter (fst fq)) fqs = false ->
+     step ideal (run ideal ops) (Sub c fqs) = (run ideal ops, Ack false) /\
+     live (ops ++ [Sub c fqs]) = live ops).
+Proof. exact malformed_rejected. Qed.
+Print Assumptions C14_malformed_rejected.
+
+(** splitTopic (the Go loop) = well-formedness test + split at '/' *)
+Theorem C14_split_topic_spec : forall s : string,
+  split_topic s = if wf_filter s then Some (split_slash s) else None.
+Proof. exact split_topic_spec. Qed.
+Print Assumptions C14_split_topic_spec.
+
+Theorem C14_matches_dec_correct : forall fs ts : list level,
+  matchesb fs ts = true <-> matches fs ts.
+Proof. exact matches_dec_correct. Qed.
+Print Assumptions C14_matches_dec_correct.
+
+Theorem C14_insert_spec : forall ls ls' c q n,
+  at_path ls' (insert ls c q n) =
+    if lev_eq_dec ls' ls then aset c q (at_path ls n) else at_path ls' n.
+Proof. exact insert_spec. Qed.
+Print Assumptions C14_insert_spec.
+
+Theorem C14_remove_spec : forall ls ls' c n,
+  at_path ls' (remove ls c n) =
+    if lev_eq_dec ls' ls then aremove c (at_path ls n) else at_path ls' n.
+Proof. exact remove_spec. Qed.
+Print Assumptions C14_remove_spec.
+
+Theorem C14_remove_prunes : forall ls c q, remove ls c (insert ls c q empty_node) = empty_node.
+Proof. exact remove_prunes. Qed.
+Print Assumptions C14_remove_prunes.
+
+Theorem C14_find_frontier_eq_find1 : forall ts n x,
+  In x (find_frontier ts [n] []) <-> In x (find1 ts n).
+Proof. exact find_frontier_eq_find1. Qed.
+Print Assumptions C14_find_frontier_eq_find1.
+
+Theorem C14_history_repr : forall (ops : list op) (fl : list level) (c : cid) (q : qos),
+  In (c, q) (at_path fl (trie (run ideal ops))) <->
+  exists f, split_topic f = Some fl /\ In ((c, f), q) (live ops).
+Proof. exact history_repr. Qed.
+Print Assumptions C14_history_repr.
+
+(** the decidable per-run checker [prop_trace] accepts every trace of the repaired model *)
+Theorem C14_prop_checker_sound : forall ops : list tr_op,
+  prop_trace [] ops (model_trace ideal st0 ops) = true.
+Proof. exact prop_checker_sound. Qed.
+Print Assumptions C14_prop_checker_sound.
+
+(** the unchanged code (quirk flag on) violates the property *)
+Theorem C14_refuted_q_abort_on_malformed :
+  exists ops T c q,
+    has_wild T = false /\ live ops = [] /\
+    exists r, find (trie (run pinned_code ops)) T = Some r /\ In (c, q) r.
+Proof. exact refuted_q_abort_on_malformed. Qed.
+Print Assumptions C14_refuted_q_abort_on_malformed.
